@@ -213,4 +213,17 @@ CHECKS = {
         "required_classes": {"outcome:accepted": 0.2, "outcome:set-error-is-usage-error": 0.005, "type:flag-like-custom-type-used": 0.03, "type:isboolflag-false": 0.05},
         "assumptions": COMMON_ASSUMPTIONS + ["String/IsDefault/IsBoolFlag call counts are not asserted, only Set/Clear order and content"],
     },
+    "C20": {
+        "race": True,
+        "tests": [{"name": "TestC20", "quick": 480, "thorough": 16000, "deadline": "60s"}],
+        "rule": "cases = batches of 8-48 complete applications (C01 programs with env-backed options and several command lines per program so that spec strings repeat inside a batch, command trees with "
+                "hook logs, typed-value apps with environment lists); all environment variables of a batch get case-unique names and are set once before any goroutine starts; the harness is built with -race. "
+                "oracle on the outcome record (acceptance, every bound value as read inside the Action, hook log, exit/panic status; no message wording): (1) each application rebuilt and rerun gives the same record, "
+                "(2) the batch rerun in a second random order gives the same per-application records, (3) 2-4 rounds with one goroutine per application (each builds and runs its own app; GOMAXPROCS 2 or 16) give the "
+                "sequential records and the race detector stays silent (a report is turned into a VIOLATION with the batch as replay file). evaluations = batches; the class 'applications-run' counts single app executions. "
+                "non-trivial = batch of >= 8 applications in which >= 2 share a spec string and >= 1 uses environment-backed containers; distinct by full batch",
+        "required_classes": {"gomaxprocs:2": 0.1, "gomaxprocs:16": 0.1},
+        "assumptions": COMMON_ASSUMPTIONS + ["schedule coverage is whatever the Go scheduler produces in the rounds run; interleavings are sampled, not enumerated",
+                                             "package-level streams and exit function are swapped once per batch for a mutex-protected discard writer (through the verif hook) before the goroutines start"],
+    },
 }
